@@ -306,4 +306,20 @@ theorem no_cbAssert (env : Env) (st : State) (r : CReq) :
     simp only [hb']
     cases hout : r.out <;> simp
 
+/-! ### the memo -/
+
+theorem viaMemo_faithful (memo : Tok → Tok) (h : MemoFaithful memo) (p : Parts) :
+    p.viaMemo memo = p := by
+  have : memo = id := funext h
+  subst this
+  cases p
+  simp [Parts.viaMemo]
+
+/-- with a faithful memo the explicit-memo transition is the model's transition -/
+theorem stepCompileMemo_faithful (memo : Tok → Tok) (h : MemoFaithful memo) (env : Env)
+    (st : State) (r : CReq) : stepCompileMemo memo env st r = stepCompile env st r := by
+  unfold stepCompileMemo stepCompile
+  simp only [viaMemo_faithful memo h]
+  rfl
+
 end EdbVerif.Sync
